@@ -5,6 +5,8 @@ ring atom a *kind*.  For standard and anchored kinds the kind table says
 whether the atom needs exactly one double bond inside the aromatic system
 (True), must have none (False); exotic kinds carry None (no claim).
 No selfies code and no RDKit is used here."""
+import collections
+
 from vmon.molgen import GMol, GAtom
 
 # kind -> (element, hcount(None = organic subset), charge, needs_pi, substituent, ring degree allowed)
@@ -186,6 +188,26 @@ def build(rng, n, edges, deg, kinds_for, extra_subst=0.25, p_isotope=0.04):
                 a.hcount = 1 if (kind_of[v] == "c" and deg[v] == 2) else 0
             a.isotope = rng.choice(ISOTOPES[a.element])
     return m, kind_of, set(edges)
+
+
+def single_ring_bonds(rng, m, kind_of, ae, k=1):
+    """Turn up to k aromatic ring bonds between plain aromatic carbons into explicit single bonds (written '-'):
+    the two atoms still need a pi bond, but not along this bond.  Returns the new aromatic edge set."""
+    ae = set(ae)
+    deg = collections.Counter()
+    for a, b in ae:
+        deg[a] += 1
+        deg[b] += 1
+    cands = [e for e in sorted(ae) if all(kind_of[v] in ("c", "cR") and deg[v] >= 2 and m.atoms[v].isotope is None for v in e)]
+    rng.shuffle(cands)
+    for (a, b) in cands[:k]:
+        if deg[a] < 2 or deg[b] < 2:
+            continue
+        ae.discard((a, b))
+        m.bonds[(a, b)] = 1
+        deg[a] -= 1
+        deg[b] -= 1
+    return ae
 
 
 def link_systems(rng, parts, bridge=True):
